@@ -159,7 +159,7 @@ Definition wf_lp (l : lp_t) :=
   length (l_targets l) = N.to_nat (l_count l) /\ Forall lt16 (l_targets l) /\
   match l_pad l with Some x => N.odd (l_count l) = true /\ lt16 x | None => N.odd (l_count l) = false end.
 
-Definition payload_ok (d : bytes) (maxlen : nat) := (1 <= length d <= maxlen)%nat /\ Forall (fun x => x < 256) d.
+Definition payload_ok (d : bytes) (maxlen : N) := 1 <= N.of_nat (length d) <= maxlen /\ Forall (fun x => x < 256) d.
 
 (* which body goes with which section id, and the declared length *)
 Definition wf_section (s : section_t) :=
